@@ -122,6 +122,8 @@ class FnTranslator:
                 return f"(pyMin {args[0]} {args[1]})", flags
             if fname == "max" and len(args) == 2:
                 return f"(pyMax {args[0]} {args[1]})", flags
+            if fname == "binom" and len(args) == 2:
+                return f"(pyBinom {args[0]} {args[1]})", flags
             if fname in self.known:
                 if self.known[fname]:
                     raise Unsupported(f"{self.fn.name}: call of raising function {fname} inside an expression")
@@ -489,6 +491,87 @@ def translate_make_mapping_each_set(tree):
         "  some (st.1, st.2)\n")
 
 
+def translate_z_matrix(tree):
+    """`_get_Z_matrix` (fci_graph.py), reference branch: two loop nests that assign entries of Z.  The reviewed shape is
+         for k in range(A): for ll in range(B): Z[I] = sum(E for m in range(C))
+         k = K
+         for ll in range(D): Z[J] = F
+       Each range, index and value expression is translated; the theorem `py_z_matrix` relates them to Model.zEntry."""
+    fn = next((n for n in tree.body if isinstance(n, ast.FunctionDef) and n.name == "_get_Z_matrix"), None)
+    if fn is None:
+        raise Unsupported("fci_graph.py: _get_Z_matrix not found")
+
+    def need(cond, what):
+        if not cond:
+            raise Unsupported(f"_get_Z_matrix: reviewed shape not found: {what}")
+    branch = next((n for n in fn.body if isinstance(n, ast.If) and n.orelse and "_calculate_Z_matrix" in ast.unparse(n.body[0])), None)
+    need(branch is not None, "if <accelerated>: _calculate_Z_matrix(...) else: ...")
+    body = branch.orelse
+    need(len(body) == 3 and isinstance(body[0], ast.For) and isinstance(body[1], ast.Assign) and isinstance(body[2], ast.For),
+         "for / assignment / for in the reference branch")
+    dummy = ast.parse("def z(norb: int, nele: int): pass").body[0]
+    tr = FnTranslator(dummy, {})
+
+    def rng(call, env):
+        need(isinstance(call, ast.Call) and ast.unparse(call.func) == "range" and not call.keywords and len(call.args) in (1, 2), "range(a, b)")
+        args = [ast.Constant(0)] + call.args if len(call.args) == 1 else call.args
+        a, fa = tr.expr(args[0], env)
+        b, fb = tr.expr(args[1], env)
+        need(not fa and not fb, "total range bounds")
+        return f"pyRange {a} {b}"
+
+    def index(target, env):
+        need(isinstance(target, ast.Subscript) and isinstance(target.value, ast.Name) and target.value.id == "Z"
+             and isinstance(target.slice, ast.Tuple) and len(target.slice.elts) == 2, "Z[row, col] = ...")
+        r, fr = tr.expr(target.slice.elts[0], env)
+        c, fc = tr.expr(target.slice.elts[1], env)
+        need(not fr and not fc, "total index")
+        return f"({r}, {c})"
+    env0 = {"norb": True, "nele": True}
+    outer = body[0]
+    need(isinstance(outer.target, ast.Name) and outer.target.id == "k" and not outer.orelse and len(outer.body) == 1
+         and isinstance(outer.body[0], ast.For), "for k in range(...): for ll in ...")
+    rows1 = rng(outer.iter, env0)
+    inner = outer.body[0]
+    env1 = dict(env0, k=True)
+    need(isinstance(inner.target, ast.Name) and inner.target.id == "ll" and not inner.orelse and len(inner.body) == 1
+         and isinstance(inner.body[0], ast.Assign) and len(inner.body[0].targets) == 1, "for ll in range(...): Z[...] = ...")
+    cols1 = rng(inner.iter, env1)
+    env2 = dict(env1, ll=True)
+    asg = inner.body[0]
+    idx1 = index(asg.targets[0], env2)
+    v = asg.value
+    need(isinstance(v, ast.Call) and ast.unparse(v.func) == "sum" and len(v.args) == 1 and not v.keywords
+         and isinstance(v.args[0], ast.GeneratorExp) and len(v.args[0].generators) == 1, "sum(<expr> for m in range(...))")
+    gen = v.args[0].generators[0]
+    need(isinstance(gen.target, ast.Name) and not gen.ifs and not gen.is_async, "plain generator")
+    mvar = gen.target.id
+    srange = rng(gen.iter, env2)
+    elt, fe = tr.expr(v.args[0].elt, dict(env2, **{mvar: True}))
+    need(not fe, "total summand")
+    mid = body[1]
+    need(len(mid.targets) == 1 and isinstance(mid.targets[0], ast.Name) and mid.targets[0].id == "k", "k = <expr>")
+    kval, fk = tr.expr(mid.value, env0)
+    need(not fk, "total k")
+    last = body[2]
+    need(isinstance(last.target, ast.Name) and last.target.id == "ll" and not last.orelse and len(last.body) == 1
+         and isinstance(last.body[0], ast.Assign) and len(last.body[0].targets) == 1, "for ll in range(...): Z[...] = ...")
+    cols2 = rng(last.iter, env0)
+    idx2 = index(last.body[0].targets[0], env2)
+    val2, f2 = tr.expr(last.body[0].value, env2)
+    need(not f2, "total value")
+    return (f"/-- `src/fqe/fci_graph.py`, `_get_Z_matrix` (line {fn.lineno}), reference branch: the ranges of the two loop nests, the\n"
+            "    index each iteration assigns and the value it assigns (`binom` = scipy's, see PyPrelude.pyBinom) -/\n"
+            f"def z1_rows (norb nele : Int) : List Int := {rows1}\n"
+            f"def z1_cols (norb nele k : Int) : List Int := {cols1}\n"
+            f"def z1_index (norb nele k ll : Int) : Int × Int := {idx1}\n"
+            f"def z1_value (norb nele k ll : Int) : Int := pySum ({srange}) (fun {mvar} => {elt})\n"
+            f"def z2_k (norb nele : Int) : Int := {kval}\n"
+            f"def z2_cols (norb nele : Int) : List Int := {cols2}\n"
+            f"def z2_index (norb nele k ll : Int) : Int × Int := {idx2}\n"
+            f"def z2_value (norb nele k ll : Int) : Int := {val2}\n")
+
+
 def main():
     chunks = []
     known = {}
@@ -525,6 +608,8 @@ def main():
     summary.append(("mme_entry", False))
     chunks.append(translate_make_mapping_each_set(ast.parse(open(os.path.join(REPO, "src/fqe/fci_graph_set.py")).read())))
     summary.append(("mmes_entry", False))
+    chunks.append(translate_z_matrix(ast.parse(open(os.path.join(REPO, "src/fqe/fci_graph.py")).read())))
+    summary.append(("z_matrix", False))
     hdr = ("/-\n  GENERATED by harness/translate/pyint.py from the Python sources of /repo (bitstring.py, util.py,\n"
            "  _fqe_control.py).  Do not edit: regenerated on every check run.\n-/\n"
            "import FqeVerif.Lemmas.PyPrelude\nset_option linter.unusedVariables false\nnamespace GenPy\nopen PyPrelude\n\n")
